@@ -50,7 +50,7 @@ def trait_call(I, w, frame, site, fn, key, args, term):
     if dty['k'] == 'int':
         a = ATOMS.fresh(method, *AI.int_range(dty), defn=('traitcall', key, tuple(args)))
         return [(w, ('int', Lin.atom(a)))]
-    res = I.deep_expand(w, ('top', reg_ty(dty), ('trait', key, site[:3]), f"{method}()"), keyed=(frame.ctx, site[:3]))
+    res = I.deep_expand(w, ('top', reg_ty(dty), ('trait', key, site[:3]), f"{method}()"), keyed=(tuple(c[:3] for c in frame.ctx), site[:3]))
     hook = I.cfg.get('trait_result_hooks', {}).get(key)
     if hook:
         res = hook(I, w, frame, site, args, res) or res
